@@ -34,19 +34,27 @@ def _opts(bad_key, bad_val, pos):
     return dict(items)
 
 
+MUST_REFUSE = set()
+
+
 def build_menu():
     M = []
+
+    def R(cmd, props):
+        """a request that is invalid by construction: it must be answered with an error"""
+        MUST_REFUSE.add(len(M))
+        M.append((cmd, props))
     # --- set
     for pos in ('first', 'middle', 'last'):
-        M.append(('set', {'name': 'a', 'options': _opts('numprocesses', 'three', pos)}))
-        M.append(('set', {'name': 'a', 'options': _opts('nosuchoption', 1, pos)}))
+        R('set', {'name': 'a', 'options': _opts('numprocesses', 'three', pos)})
+        R('set', {'name': 'a', 'options': _opts('nosuchoption', 1, pos)})
         M.append(('set', {'name': 's', 'options': _opts('numprocesses', 2, pos)}))          # singleton
         M.append(('set', {'name': 'a', 'options': _opts('uid', 'no-such-user-xyz', pos)}))
-        M.append(('set', {'name': 'a', 'options': _opts('stop_signal', 'SIGBOGUS', pos)}))
-        M.append(('set', {'name': 'a', 'options': _opts('env', {'A': 5}, pos)}))
+        R('set', {'name': 'a', 'options': _opts('stop_signal', 'SIGBOGUS', pos)})
+        R('set', {'name': 'a', 'options': _opts('env', {'A': 5}, pos)})
         M.append(('set', {'name': 'a', 'options': _opts('hooks', {'nohook': 'x.y'}, pos)}))
-        M.append(('set', {'name': 'a', 'options': _opts('send_hup', 'yes', pos)}))
-        M.append(('set', {'name': 'a', 'options': _opts('warmup_delay', 'soon', pos)}))
+        R('set', {'name': 'a', 'options': _opts('send_hup', 'yes', pos)})
+        R('set', {'name': 'a', 'options': _opts('warmup_delay', 'soon', pos)})
         M.append(('set', {'name': 'a', 'options': _opts('rlimit_bogus', 5, pos)}))
         M.append(('set', {'name': 'a', 'options': _opts('stdout_stream', {'filename': 'x'}, pos)}))
     for v in (None, 5, 'str', []):
@@ -72,17 +80,20 @@ def build_menu():
         M.append((c, {}))
         M.append((c, {'name': 'a', 'nb': 'one'}))
         M.append((c, {'name': None}))
-    M.append(('kill', {'name': 'a', 'signum': 'SIGBOGUS'}))
-    M.append(('kill', {'name': 'a', 'signum': 'TERM x'}))
-    M.append(('kill', {'name': 'zz'}))
+    R('kill', {'name': 'a', 'signum': 'SIGBOGUS'})
+    R('kill', {'name': 'a', 'signum': 'TERM x'})
+    R('kill', {'name': 'a', 'signum': 'int-1'})
+    R('signal', {'name': 'a', 'signum': 'usr1 '})
+    R('signal', {'name': 'a', 'signum': 'hup+'})
+    R('kill', {'name': 'zz'})
     M.append(('kill', {'name': 'a', 'pid': 'abc'}))
     M.append(('kill', {'name': 'a', 'graceful_timeout': 'soon'}))
     M.append(('kill', {'name': 'a', 'graceful_timeout': [1]}))
     M.append(('kill', {}))
-    M.append(('signal', {'name': 'a', 'signum': 'SIGBOGUS'}))
-    M.append(('signal', {'name': 'a', 'signum': '_IGN'}))
+    R('signal', {'name': 'a', 'signum': 'SIGBOGUS'})
+    R('signal', {'name': 'a', 'signum': '_IGN'})
     M.append(('signal', {'name': 'a'}))
-    M.append(('signal', {'name': 'zz', 'signum': 15}))
+    R('signal', {'name': 'zz', 'signum': 15})
     M.append(('signal', {'name': 'a', 'signum': 15, 'childpid': 4}))
     M.append(('signal', {'name': 'a', 'signum': 15, 'pid': 99999}))
     M.append(('signal', {'name': 'a', 'signum': 15, 'pid': 'x'}))
@@ -99,7 +110,12 @@ def build_menu():
     M.append(('options', {'name': 'zz'}))
     M.append(('get', {'name': 'a', 'keys': ['nope']}))
     M.append(('get', {'name': 'a'}))
-    M.append(('nosuchcommand', {'name': 'a'}))
+    R('nosuchcommand', {'name': 'a'})
+    # ill-typed values that compare EQUAL to values accepted earlier (the daemon is primed with the valid forms)
+    R('set', {'name': 'a', 'options': {'numprocesses': 3.0}})
+    R('set', {'name': 'a', 'options': {'send_hup': 1}})
+    R('set', {'name': 'a', 'options': {'stop_signal': 9.0}})
+    R('set', {'name': 'a', 'options': {'warmup_delay': 4, 'stop_children': 1}})
     # --- ill-typed properties that only fail once the operation runs (sent with waiting so that the failure is reported)
     M.append(('kill', {'name': 'a', 'graceful_timeout': 'soon', 'waiting': True}))
     M.append(('kill', {'name': 'a', 'graceful_timeout': [1], 'waiting': True}))
@@ -154,6 +170,10 @@ def c11_refuse(si: int, ri: int) -> bool:
         ws = w.mk_watcher('s', numprocesses=1, graceful_timeout=0.3, singleton=True)
         w.boot([wa, wb, ws], check_delay=-1)
         try:
+            # prime the daemon with VALID forms of some options (a validation cache must not let equal ill-typed values through)
+            pr = w.call('set', name='b', options={'numprocesses': 3, 'send_hup': True, 'stop_signal': 9, 'warmup_delay': 4,
+                                                 'stop_children': True, 'max_retry': 1}, waiting=True, max_time=20.0)
+            w.quiesce()
             if STATES[si] == 'one_stopped':
                 w.call('stop', name='b', waiting=True, match='simple')
             elif STATES[si] == 'in_flight':
@@ -177,6 +197,10 @@ def c11_refuse(si: int, ri: int) -> bool:
                 rt.note('%s %r: no reply', cmd, props)
                 return rt.verdict(False)
             if r.status != 'error':
+                if ri in MUST_REFUSE and snapshot(w) != before:
+                    rt.note('%s %r is invalid by construction, yet it was answered %r and changed the daemon', cmd, props,
+                            r.reply.get('status'))
+                    return rt.verdict(False)
                 return rt.skip()                          # accepted: nothing is claimed about it here
             ok = True
             after = snapshot(w)
